@@ -56,7 +56,10 @@ def run_text(text):
         r = get_evaluatable().create_from(PrologString(text)).evaluate()
         out["nontrivial"] = len(r) > 0
     except _Timeout:
-        out["violations"].append(("timeout", "inference did not finish within 20 s"))
+        # A damaged program can be a non-terminating one (e.g. path(X,Y) :- path(\+X,Z), ... builds ever larger terms):
+        # the property is about the exception raised when inference *ends*; like RecursionError this is a resource limit
+        # (stated assumption), not a verdict.
+        out["timeout"] = True
     except RecursionError:
         pass            # resource limit (stated assumption)
     except Exception as e:      # noqa
